@@ -24,11 +24,18 @@ KINDS = {
     'g2boom': (2, 'boom'), 'g1boom': (1, 'boom'),
     'plain': (0, 'plain'), 'plainperr': (0, 'plainperr'),
     'v1ok': (1, 'ok'),      # coroutine method of a class based view that keeps per-call state on self across its gate
+    'w1ok': (1, 'ok'),      # a plain function that RETURNS a coroutine (a coroutine function behind an ordinary decorator)
 }
+
+
+import contextvars
+
+ELEM = contextvars.ContextVar('c10_element', default=None)
 
 
 class Monitor:
     def __init__(self):
+        self.ctxvar_seen = []   # (elem, where, value of the context variable)
         self.events = []        # (elem, 'enter' | 'exit' | 'run')
         self.inflight = set()
         self.max_inflight = 0
@@ -60,6 +67,9 @@ def build(cfg, mon):
 
         async def co(i):
             mon.events.append((i, 'run'))
+            if cfg.get('ctxvar'):
+                # per-element state kept in a context variable by the middleware must still be this element's after the suspensions
+                mon.ctxvar_seen.append((i, 'start', ELEM.get()))
             top = cfg['mw'] == 'none'
             if top:
                 mon.enter(i)
@@ -69,12 +79,22 @@ def build(cfg, mon):
                         # raises between its gates
                         raise ValueError('%s %d' % (MARK, i))
                     await gate(i, 'm%d' % g)
+                if cfg.get('ctxvar'):
+                    mon.ctxvar_seen.append((i, 'end', ELEM.get()))
                 if ending == 'perr':
                     raise JsonRpcError(5000 + i, 'perr %d' % i, data={'elem': i})
                 return {'elem': i, 'kind': kind}
             finally:
                 if top:
                     mon.exit(i)
+        if kind == 'w1ok':
+            import functools
+            inner = co
+
+            @functools.wraps(inner)
+            def plain_returning_coroutine(i):
+                return inner(i)
+            return plain_returning_coroutine
         return co
 
     middlewares = []
@@ -96,6 +116,8 @@ def build(cfg, mon):
         async def mw(request, context, handler):
             i = request.params[0] if request.params else -1
             mon.enter(i)
+            if cfg.get('ctxvar'):
+                ELEM.set(i)
             try:
                 if cfg['mw'] in ('before', 'both'):
                     await gate(i, 'mwb')
@@ -113,6 +135,12 @@ def build(cfg, mon):
             await gate(i, 'eh')
             return error
         handlers = {None: [eh]}
+        if cfg['eh'] == 'gate+code':
+            # plus a handler registered for ONE code (method not found) that rewrites the error: it must touch only the elements
+            # that failed with that code, however the other elements' handlers interleave
+            async def rewrite(request, context, error):
+                return JsonRpcError(7404, 'rewritten', data={'was': error.code})
+            handlers[-32601] = [rewrite]
     d = pjrpc.server.AsyncDispatcher(middlewares=middlewares, error_handlers=handlers, concurrent_batch=cfg['concurrent'])
     for kind in KINDS:
         if kind != 'v1ok':
@@ -150,7 +178,7 @@ def expected(cfg):
             continue
         id = id_of(i)
         if kind == 'unknown':
-            out.append(dict(id=id, code=-32601))
+            out.append(dict(id=id, code=7404, message='rewritten', data={'was': -32601}) if cfg['eh'] == 'gate+code' else dict(id=id, code=-32601))
         else:
             ending = KINDS[kind][1]
             if ending in ('ok', 'plain'):
@@ -231,6 +259,10 @@ def check(cfg, choices, out, mon, unhandled, rec):
         entered = sorted(i for i, w in mon.events if w == 'enter')
         if entered != list(range(len(cfg['elems']))):
             return viol('C10:middleware did not run exactly once for every element', list(range(len(cfg['elems']))), entered)
+    if cfg.get('ctxvar'):
+        wrong = [(i, where, v) for i, where, v in mon.ctxvar_seen if v != i]
+        if wrong:
+            return viol('C10:an element saw another element\'s context variable', 'own element index', wrong[:6])
     if unhandled:
         return viol('C10:exception reached the loop exception handler', [], [str(u.get('message')) for u in unhandled])
     if not cfg['concurrent']:
@@ -247,7 +279,7 @@ def check(cfg, choices, out, mon, unhandled, rec):
 
 def gen_cases(ctx):
     n_main = ctx.pick(3, 3)
-    main = ['g0ok', 'g1ok', 'g2ok', 'g1perr', 'g2boom', 'plain', 'unknown', 'v1ok']
+    main = ['g0ok', 'g1ok', 'g2ok', 'g1perr', 'g2boom', 'plain', 'unknown', 'v1ok', 'w1ok']
     alphabet = [(k, c) for k in main for c in (True, False)]
     for conc in (True, False):
         for n in range(1, n_main + 1):
@@ -274,14 +306,18 @@ def gen_cases(ctx):
     # middleware / error handler stacks (<= 2 suspension points per element in total)
     small = [('g0ok', True), ('g1ok', True), ('g0perr', True), ('g1perr', False), ('unknown', True), ('plainperr', True), ('g1boom', True)]
     for conc in (True, False):
-        for mw, eh in (('before', 'none'), ('after', 'none'), ('both', 'none'), ('none', 'gate'), ('before', 'gate'), ('after', 'gate'), ('plainfn', 'none')):
+        for mw, eh in (('before', 'none'), ('after', 'none'), ('both', 'none'), ('none', 'gate'), ('before', 'gate'), ('after', 'gate'), ('plainfn', 'none'),
+                       ('none', 'gate+code'), ('before', 'ctxvar')):
             for n in range(1, ctx.pick(2, 3) + 1):
                 for elems in itertools.product(small, repeat=n):
                     budget_ok = all(KINDS.get(k, (0,))[0] + {'none': 0, 'before': 1, 'after': 1, 'both': 2, 'plainfn': 1}[mw] +
-                                    (1 if eh == 'gate' and (k == 'unknown' or KINDS[k][1] not in ('ok', 'plain')) else 0) <= 2
+                                    (1 if eh in ('gate', 'gate+code') and (k == 'unknown' or KINDS[k][1] not in ('ok', 'plain')) else 0) <= 2
                                     for k, _ in elems)
                     if budget_ok:
-                        yield dict(part='stack', concurrent=conc, mw=mw, eh=eh, elems=elems)
+                        if eh == 'ctxvar':
+                            yield dict(part='stack', concurrent=conc, mw=mw, eh='none', elems=elems, ctxvar=True)
+                        else:
+                            yield dict(part='stack', concurrent=conc, mw=mw, eh=eh, elems=elems)
 
 
 def run_case(cfg, rec):
